@@ -80,6 +80,13 @@ func badDecl(s *SinkCase) string {
 }
 
 func (e EvCase) args() string {
+	if e.State == "" {
+		// fewer arguments than documented (pool path only)
+		if e.Kind == "" {
+			return e.Name
+		}
+		return e.Name + ", " + e.Kind
+	}
 	a := e.Name + ", " + e.Kind + ", " + e.State
 	if e.Scope != "" {
 		a += ", " + e.Scope
@@ -109,7 +116,13 @@ var sinkBodies = []cval{
 	{"event-write", "    event.state.v.a := 1\n    event.kind[0] := 1"},
 	{"add-event", "    addEvent(\"child\", \"c06.other\", {\"v\" : event.state.v})\n    addEvent(event.state.v, event.state.v, event.state.v, event.state.v)"},
 	{"try-inside", "    try {\n        raise(event.state.v)\n    } except e {\n        x := e.type\n    } finally {\n        event.state.v[5]\n    }"},
+	// the sink changes the event object it was given (whatever the sender passed as state)
+	{"state-write", "    event.state.seen := true\n    event.state[\"k\"] := [event.state.seen]"},
+	{"event-replace", "    event.name := [1]\n    event.state := {\"v\" : 1}\n    event.kind := null"},
+	{"state-iterate-len", "    for [k, v] in event.state {\n        x := k\n    }\n    x := len(event.state)"},
 }
+
+var eventWritingBodies = map[string]bool{"state-write": true, "event-replace": true, "state-iterate-len": true, "event-write": true}
 
 func runSink(c Case) *hx.Failure {
 	s := c.Sink
@@ -439,6 +452,23 @@ func sinkMatrix(yield func(Case) bool) {
 				continue // a container as map key is covered by the directed sets (mapkey)
 			}
 			if !both(mkSink("event("+e.args()+")", attrs, sinkBodies[1], false, e)) {
+				return
+			}
+		}
+	}
+	// (v) sinks which write into / walk over the event they were given x every form of the state ARGUMENT of the
+	// sender (every member of U, and fewer arguments than documented), always through the real addEventAndWait on a
+	// pool worker: whatever the sender is allowed to pass must be safe for the sink to use
+	for _, b := range sinkBodies {
+		if !eventWritingBodies[b.Name] {
+			continue
+		}
+		evs := []EvCase{{`"e"`, `"c06.bad"`, "", ""}, {`"e"`, "", "", ""}}
+		for u := range U {
+			evs = append(evs, EvCase{`"e"`, `"c06.bad"`, U[u].Lit, ""})
+		}
+		for _, e := range evs {
+			if !yield(mkSink("event("+e.args()+")", defaultAttrs(), b, true, e)) {
 				return
 			}
 		}
